@@ -185,12 +185,12 @@ impl Prop for C11 {
         false
     }
     fn rule(&self) -> String {
-        "token soups: all sequences of <=3 (thorough 4) tokens over a 44-token alphabet (numbers incl. 1e999/1e-999, signed, `1.`/`.5`; unit, keyword, function and fact words; every operator and bracket) x all joiner patterns {blank, nothing}; unicode: all strings of <=4 (thorough 5) symbols over 30 code points of 1-4 bytes (ASCII classes, four blank kinds, °, é, Ω, €, emoji, combining mark, NUL); edit neighbourhoods: every single-token deletion, replacement and insertion (44-token alphabet) on 60 seeds of 3-40 tokens (README examples, every operator/feature), thorough: every 2-edit over a 12-token structural sub-alphabet on the seeds up to 12 tokens. Both build profiles (release; debug-assertions + overflow-checks). Every result must be displayable or an error with a non-empty message and an in-bounds char-boundary range the codespan renderer accepts; no panic, abort or hang (20 s). A 1/97 stride of the cases is also run through the real `any` binary. Non-trivial = the input produced at least one result; distinct = distinct input strings".into()
+        "token soups: all sequences of <=3 (thorough 4) tokens over a 44-token alphabet (numbers incl. 1e999/1e-999, signed, `1.`/`.5`; unit, keyword, function and fact words; every operator and bracket) x all joiner patterns {blank, nothing}; unicode: all strings of <=4 (thorough 5) symbols over 30 code points of 1-4 bytes (ASCII classes, four blank kinds, °, é, Ω, €, emoji, combining mark, NUL); edit neighbourhoods: every single-token deletion, replacement and insertion (44-token alphabet) on 60 seeds of 3-40 tokens (README examples, every operator/feature), thorough: every 2-edit over a 12-token structural sub-alphabet on the seeds up to 12 tokens. long inputs: every sequence of 1..2 tokens over a 14-token structural alphabet (glued and blank-separated) repeated k times and nested k deep inside ten wrappers for k in {8,20,31,32,33,34,40,64,100,257}. Both build profiles (release; debug-assertions + overflow-checks). Every result must be displayable or an error with a non-empty message and an in-bounds char-boundary range the codespan renderer accepts; no panic, abort or hang (20 s). A 1/97 stride of the cases is also run through the real `any` binary. Non-trivial = the input produced at least one result; distinct = distinct input strings".into()
     }
     fn assumptions(&self) -> Vec<String> {
         vec![
             "inputs with a >2-digit number after a power operator are outside the statement's bounds; inputs whose value may exceed 30k bits are counted and skipped (num's gcd(x,1) makes them take minutes, not forever)".into(),
-            "inputs that are both long and >=3 edits away from every seed are not visited".into(),
+            "inputs that are both long and >=3 edits away from every seed are visited only where they are periodic (the repetition/nesting ladder)".into(),
         ]
     }
     fn case_budget_s(&self) -> u64 {
@@ -241,6 +241,27 @@ impl Prop for C11 {
                     for c in 0..UNI.len() {
                         sink(Case::new("unicode", format!("{a},{b},{c}")));
                     }
+                }
+            }
+        }
+        // (d) long inputs: short token sequences repeated and nested along a size ladder
+        const LAD: [&str; 14] = ["1", "m", "km", "(", ")", "+", "-", "*", "/", "^", "to", ",", "round(", "1.5"];
+        let mut units: Vec<String> = LAD.iter().map(|s| s.to_string()).collect();
+        for a in LAD {
+            for b in LAD {
+                units.push(format!("{a}{b}"));
+                units.push(format!("{a} {b}"));
+            }
+        }
+        for u in &units {
+            for k in crate::props::c12::LADDER {
+                let mut inputs = vec![u.repeat(k), format!("{u} ").repeat(k)];
+                for (pre, post) in crate::props::c12::WRAPS {
+                    inputs.push(format!("{}{u}{}", pre.repeat(k), post.repeat(k)));
+                }
+                for s in inputs {
+                    let toks = tokenize_seed(&s);
+                    sink(Case::with("ladder", s, serde_json::json!(toks)));
                 }
             }
         }
